@@ -94,7 +94,7 @@ func c08Negotiate(keep bool, typ webrtc.SDPType, in string) vh.C08Sent {
 	// by the recording one) and, for the default setting, also the way an embedder may: a BrokerChannel literal
 	// that only names its rendezvous method
 	var bc *BrokerChannel
-	if n := atomic.AddInt64(&c08Built, 1); !keep && n%2 == 0 {
+	if !keep && atomic.AddInt64(&c08Built, 1)%2 == 0 { // every other channel with the default setting
 		bc = &BrokerChannel{Rendezvous: rv}
 	} else {
 		var err error
